@@ -59,8 +59,75 @@ pub fn directed() -> Vec<(&'static str, String)> {
         ("deep-recursion-to-limit", "functie f(n) { stel a = n; f(n + 1) } f(0)".into()),
         ("fused-ops-all", "functie f(x) { [x + 1, x - 1, x * 2, x / 2, x % 2, x < 1, x <= 1, x > 1, x >= 1, x == 1, x != 1, 1 + x, 1 < x, 3 - x] } f(5)".into()),
         ("call-in-array-in-call", "functie f(x) { x } functie g(a, b, c) { [a, b, c] } g(1, [f(2), f(3)], f(f(4)))".into()),
+        // more than 64 KiB of straight-line code (jump operands are 16 bits wide, return addresses are not): calls made
+        // from addresses above 65 535 must come back to where they were made
+        ("call-above-64k", format!("stel x = 0; functie tel() {{ x = x + 1; x }}; {} [tel(), tel(), x]", "x = x + 1; ".repeat(9000))),
+        ("calls-throughout-100k-of-code", format!("functie dubbel(v) {{ stel w = v * 2; w }}; stel som = 0; {} [som, dubbel(som)]", (0..6000).map(|k| format!("som = som + dubbel({}); ", k % 7)).collect::<String>())),
         ("many-constants", (0..300).map(|i| format!("{};", i * 3)).collect::<String>() + "1"),
     ]
+}
+
+/// Control-flow integrity over a recorded trace (one record per dispatched instruction, in order): execution starts
+/// at the entry; every fetch is at an instruction boundary; the instruction after X is the one the encoding of X
+/// allows (fall through, the jump target, either for JumpIfFalse); a Call goes to the entry of some function of the
+/// constant pool and a Return / ReturnValue comes back to the instruction right after the matching Call (shadow call
+/// stack kept by this monitor); nothing is dispatched after Halt.
+fn cfi(trace: &[verif::TraceRec], instrs: &std::collections::HashMap<usize, bcv::Instr>, entries: &std::collections::HashSet<usize>, entry: usize) -> Option<(String, String)> {
+    if instrs.is_empty() {
+        return None;
+    }
+    if let Some(t) = trace.first() {
+        if t.ip as usize != entry {
+            return Some(("entry".into(), format!("the first instruction dispatched is at {} but the entry of the program is {}", t.ip, entry)));
+        }
+    }
+    let mut shadow: Vec<usize> = vec![];
+    for w in trace.windows(2) {
+        let (a, b) = (w[0].ip as usize, w[1].ip as usize);
+        let ia = match instrs.get(&a) {
+            Some(i) => i,
+            None => return Some(("fetch-off-boundary".into(), format!("an instruction was dispatched at {}, which is not an instruction boundary", a))),
+        };
+        if !instrs.contains_key(&b) {
+            return Some(("fetch-off-boundary".into(), format!("after {} at {} an instruction was dispatched at {}, which is not an instruction boundary", ia.name, a, b)));
+        }
+        let next = a + ia.len;
+        let depth = shadow.len();
+        let bad = |what: &str| Some((what.to_string(), format!("after {}({:?}) at {} the VM dispatched the instruction at {} (call depth {})", ia.name, ia.operands, a, b, depth)));
+        match ia.name.as_str() {
+            "Jump" => {
+                if b != ia.operands[0] {
+                    return bad("jump-target");
+                }
+            }
+            "JumpIfFalse" => {
+                if b != next && b != ia.operands[0] {
+                    return bad("branch-target");
+                }
+            }
+            "Call" => {
+                if !entries.contains(&b) {
+                    return bad("call-target-is-no-function-entry");
+                }
+                shadow.push(next);
+            }
+            "Return" | "ReturnValue" => match shadow.pop() {
+                Some(r) => {
+                    if b != r {
+                        return Some(("return-address".into(), format!("{} at {} came back to {} but the matching Call expects {}", ia.name, a, b, r)));
+                    }
+                }
+                None => return bad("return-without-call"),
+            },
+            "Halt" => return bad("dispatch-after-halt"),
+            _ => {
+                if b != next {
+                    return bad("fall-through");
+                }
+            }
+        }
+    }
+    None
 }
 
 impl C02 {
@@ -207,6 +274,10 @@ impl Check for C02 {
         for s in &rep.inconclusive {
             st.inconclusive(format!("bytecode checker: {}", s));
         }
+        // for the control-flow monitor over the traces: the instruction at every boundary, and the entries of all functions
+        let instrs: std::collections::HashMap<usize, bcv::Instr> = bcv::decode(&code.instructions, &self.table).unwrap_or_default().into_iter().map(|i| (i.ip, i)).collect();
+        let entries: std::collections::HashSet<usize> = code.constants.iter().filter(|c| c.tag() == nederlang::object::Type::Function).map(|c| c.as_function()[0] as usize).collect();
+        let entry = code.entry;
         // the constants of the compiled-but-not-run program are ours to release
         for c in &code.constants {
             if c.is_heap_allocated() {
@@ -249,6 +320,12 @@ impl Check for C02 {
         if reported {
             return;
         }
+        // control-flow integrity of what the VM actually did (shadow call stack, successor relation)
+        if let Some((class, detail)) = cfi(&trace, &instrs, &entries, entry) {
+            st.violation(&format!("{}:{}cfi:{}", fam, label, class), detail, &text);
+            return;
+        }
+        st.add("cfi:transitions-checked", trace.len().saturating_sub(1) as u64);
         // validation of the checker against what the VM did
         if !truncated && rep.inconclusive.is_empty() {
             for t in &trace {
@@ -295,6 +372,11 @@ impl Check for C02 {
                 let (tr, _) = verif::take_trace();
                 st.count("forced-branch-runs");
                 note(&tr, &mut seen);
+                if let Some((class, detail)) = cfi(&tr, &instrs, &entries, entry) {
+                    st.violation(&format!("{}:{}forced-path:cfi:{}", fam, label, class), format!("branch schedule {:?}: {}", s, detail), &text);
+                    return;
+                }
+                st.add("cfi:transitions-checked", tr.len().saturating_sub(1) as u64);
                 for e in &o.events {
                     if let verif::Event::Probe { site, .. } = e {
                         st.violation(&format!("{}:{}forced-path:probe:{}", fam, label, site), format!("branch schedule {:?}: {}", s, obs::render_event(e)), &text);
@@ -340,7 +422,7 @@ impl Check for C02 {
         let total = merged.counters.get("branch-directions-total").copied().unwrap_or(0);
         let driven = merged.counters.get("branch-directions-driven").copied().unwrap_or(0);
         Summary {
-            rule: "case = one source text (directed corpus, enumerated programs, random typed programs, token mutants and token soups); texts the front end rejects are counted and dropped. For every accepted text: (b) the bytecode the real compiler emitted is checked offline on all control-flow paths (decode, jump targets and function regions, minimum stack height never below the frame floor, operand ranges) and every traced instruction of the real run must lie within the statically computed height range; (a) the program runs with a guarded probe in front of every unchecked access (pop, fetch, operand read, jump, constant / local index, call frame arithmetic, builtin number, popframe, halt), once naturally and under forced branch schedules that drive both sides of every JumpIfFalse. distinct_nontrivial = distinct accepted texts that dispatched >= 10 instructions".to_string(),
+            rule: "case = one source text (directed corpus, enumerated programs, random typed programs, token mutants and token soups); texts the front end rejects are counted and dropped. For every accepted text: (b) the bytecode the real compiler emitted is checked offline on all control-flow paths (decode, jump targets and function regions, minimum stack height never below the frame floor, operand ranges) and every traced instruction of the real run must lie within the statically computed height range; a control-flow monitor replays every trace (natural and forced) against the encoding: start at the entry, every fetch on a boundary, successor = fall-through / jump target / function entry, returns checked against a shadow call stack; (a) the program runs with a guarded probe in front of every unchecked access (pop, fetch, operand read, jump, constant / local index, call frame arithmetic, builtin number, popframe, halt), once naturally and under forced branch schedules that drive both sides of every JumpIfFalse. distinct_nontrivial = distinct accepted texts that dispatched >= 10 instructions".to_string(),
             exhaustive: Some(true),
             extra: json!({
                 "exhaustive_parts": [format!("enumerated programs ({} texts)", fams.fams[1].1)],
